@@ -206,15 +206,23 @@ Qed.
 
 Notation NN := (@None _).
 
-Lemma foldM_head : forall {S} (step : string * mvalue -> S -> result S) ty h (setc : string -> S -> S) b,
+Lemma foldM_head : forall {S} (step : string * mvalue -> S -> result S) ty h (upd : option string -> S -> S) b,
   (forall v s, step ("type", v) s = ROk s) ->
-  (forall c s, step ("cfg", MStr c) s = ROk (setc c s)) ->
+  (forall c s, step ("cfg", MStr c) s = ROk (upd (Some c) s)) ->
   (forall s, step ("description", MStr "doc") s = ROk s) ->
-  foldM step (head_keys ty h) b = ROk (match h_cfg h with Some c => setc c b | None => b end).
+  upd None b = b ->
+  foldM step (head_keys ty h) b = ROk (upd (h_cfg h) b).
 Proof.
-  intros S step ty [[c|] [|] n] setc b H1 H2 H3; unfold head_keys; cbn; rewrite H1; cbn; rewrite ?H2; cbn; rewrite ?H3;
-    reflexivity.
+  intros S step ty [[c|] [|] n] upd b H1 H2 H3 H4; unfold head_keys; cbn; rewrite H1; cbn; rewrite ?H2; cbn; rewrite ?H3;
+    rewrite ?H4; reflexivity.
 Qed.
+
+Ltac flat_r :=
+  cbn [rbind upd_register or_default option_map rg_cfg rg_name rg_access rg_byte_order rg_bit_order
+       rg_allow_bit_overlap rg_allow_address_overlap rg_address rg_size_bits rg_reset rg_repeat rg_fields].
+Ltac flat_c :=
+  cbn [rbind upd_command or_default option_map cm_cfg cm_name cm_address cm_byte_order cm_bit_order
+       cm_allow_bit_overlap cm_allow_address_overlap cm_size_in cm_size_out cm_repeat cm_in_fields cm_out_fields].
 
 Lemma m_register_spec : forall toml g h r,
   register_ok r = true ->
@@ -239,47 +247,47 @@ Proof.
   set (dfa := g_default_field_access g).
   rewrite foldM_app.
   rewrite (foldM_head (m_register_step dfa) "register" h
-             (fun c s => upd_register s (Some (Some c)) NN NN NN NN NN NN NN NN NN NN))
+             (fun c s => upd_register s (option_map Some c) NN NN NN NN NN NN NN NN NN NN))
     by (intros; reflexivity).
-  cbn [rbind]. unfold register_keys. rewrite Ea, Es.
+  flat_r. unfold register_keys. rewrite Ea, Es.
   rewrite foldM_app, (seg_m (m_register_step dfa) "access" m_of_access
                          (fun x s => upd_register s NN x NN NN NN NN NN NN NN NN NN) always);
     [|intros a0 _; unfold m_register_step; keys; rewrite m_access_ok; reflexivity
-     |destruct (h_cfg h); reflexivity|apply opt_ok_always].
-  cbn [rbind].
+     |reflexivity|apply opt_ok_always].
+  flat_r.
   rewrite foldM_app, (seg_m (m_register_step dfa) "byte_order" m_of_byte_order
                          (fun x s => upd_register s NN NN (option_map Some x) NN NN NN NN NN NN NN NN) always);
     [|intros a0 _; unfold m_register_step; keys; rewrite m_byte_order_ok; reflexivity
-     |destruct (h_cfg h); reflexivity|apply opt_ok_always].
-  cbn [rbind].
+     |reflexivity|apply opt_ok_always].
+  flat_r.
   rewrite foldM_app, (seg_m (m_register_step dfa) "bit_order" m_of_bit_order
                          (fun x s => upd_register s NN NN NN x NN NN NN NN NN NN NN) always);
     [|intros a0 _; unfold m_register_step; keys; rewrite m_bit_order_ok; reflexivity
-     |destruct (h_cfg h); reflexivity|apply opt_ok_always].
-  cbn [rbind].
+     |reflexivity|apply opt_ok_always].
+  flat_r.
   rewrite foldM_app. cbn [opt_key foldM]. unfold m_register_step at 1. keys. cbn in Hok. rewrite (as_int_ok _ Hok).
-  cbn [rbind].
+  flat_r.
   rewrite foldM_app. cbn [opt_key foldM]. unfold m_register_step at 1. keys.
   match goal with H : opt_ok in_u32 (Some s) = true |- _ => cbn in H; rewrite (as_u32_ok _ H) end.
-  cbn [rbind].
+  flat_r.
   rewrite foldM_app, (seg_m (m_register_step dfa) "reset_value" m_of_reset
                          (fun x s => upd_register s NN NN NN NN NN NN NN NN (option_map Some x) NN NN) reset_ok);
     [|intros a0 Ha0; unfold m_register_step; keys; rewrite (m_reset_ok _ Ha0); reflexivity
-     |destruct (h_cfg h); reflexivity|assumption].
-  cbn [rbind].
+     |reflexivity|assumption].
+  flat_r.
   rewrite foldM_app, (seg_m (m_register_step dfa) "repeat" m_of_repeat
                          (fun x s => upd_register s NN NN NN NN NN NN NN NN NN (option_map Some x) NN) repeat_ok);
     [|intros a0 Ha0; unfold m_register_step; keys; rewrite (m_repeat_ok _ Ha0); reflexivity
-     |destruct (h_cfg h); reflexivity|assumption].
-  cbn [rbind].
+     |reflexivity|assumption].
+  flat_r.
   rewrite foldM_app, (seg_m (m_register_step dfa) "allow_bit_overlap" MBool
                          (fun x s => upd_register s NN NN NN NN x NN NN NN NN NN NN) always);
-    [|intros a0 _; reflexivity|destruct (h_cfg h); reflexivity|apply opt_ok_always].
-  cbn [rbind].
+    [|intros a0 _; reflexivity|reflexivity|apply opt_ok_always].
+  flat_r.
   rewrite foldM_app, (seg_m (m_register_step dfa) "allow_address_overlap" MBool
                          (fun x s => upd_register s NN NN NN NN NN x NN NN NN NN NN) always);
-    [|intros a0 _; reflexivity|destruct (h_cfg h); reflexivity|apply opt_ok_always].
-  cbn [rbind].
+    [|intros a0 _; reflexivity|reflexivity|apply opt_ok_always].
+  flat_r.
   destruct (ar_fields r) as [|f0 ft] eqn:Ef.
   - cbn [foldM]. unfold class_of. f_equal.
     destruct (h_cfg h), (ar_byte_order r), (ar_reset r), (ar_repeat r); reflexivity.
@@ -308,57 +316,57 @@ Proof.
   set (dfa := g_default_field_access g).
   rewrite foldM_app.
   rewrite (foldM_head (m_command_step dfa) "command" h
-             (fun c s => upd_command s (Some (Some c)) NN NN NN NN NN NN NN NN NN NN))
+             (fun c s => upd_command s (option_map Some c) NN NN NN NN NN NN NN NN NN NN))
     by (intros; reflexivity).
-  cbn [rbind]. unfold command_keys. rewrite Ea.
+  flat_c. unfold command_keys. rewrite Ea.
   rewrite foldM_app, (seg_m (m_command_step dfa) "byte_order" m_of_byte_order
                          (fun x s => upd_command s NN (option_map Some x) NN NN NN NN NN NN NN NN NN) always);
     [|intros a0 _; unfold m_command_step; keys; rewrite m_byte_order_ok; reflexivity
-     |destruct (h_cfg h); reflexivity|apply opt_ok_always].
-  cbn [rbind].
+     |reflexivity|apply opt_ok_always].
+  flat_c.
   rewrite foldM_app, (seg_m (m_command_step dfa) "bit_order" m_of_bit_order
                          (fun x s => upd_command s NN NN x NN NN NN NN NN NN NN NN) always);
     [|intros a0 _; unfold m_command_step; keys; rewrite m_bit_order_ok; reflexivity
-     |destruct (h_cfg h); reflexivity|apply opt_ok_always].
-  cbn [rbind].
+     |reflexivity|apply opt_ok_always].
+  flat_c.
   rewrite foldM_app. cbn [opt_key foldM]. unfold m_command_step at 1. keys. cbn in Hok. rewrite (as_int_ok _ Hok).
-  cbn [rbind].
+  flat_c.
   rewrite foldM_app, (seg_m (m_command_step dfa) "repeat" m_of_repeat
                          (fun x s => upd_command s NN NN NN NN NN NN NN NN (option_map Some x) NN NN) repeat_ok);
     [|intros a0 Ha0; unfold m_command_step; keys; rewrite (m_repeat_ok _ Ha0); reflexivity
-     |destruct (h_cfg h); reflexivity|assumption].
-  cbn [rbind].
+     |reflexivity|assumption].
+  flat_c.
   rewrite foldM_app, (seg_m (m_command_step dfa) "allow_bit_overlap" MBool
                          (fun x s => upd_command s NN NN NN x NN NN NN NN NN NN NN) always);
-    [|intros a0 _; reflexivity|destruct (h_cfg h); reflexivity|apply opt_ok_always].
-  cbn [rbind].
+    [|intros a0 _; reflexivity|reflexivity|apply opt_ok_always].
+  flat_c.
   rewrite foldM_app, (seg_m (m_command_step dfa) "allow_address_overlap" MBool
                          (fun x s => upd_command s NN NN NN NN x NN NN NN NN NN NN) always);
-    [|intros a0 _; reflexivity|destruct (h_cfg h); reflexivity|apply opt_ok_always].
-  cbn [rbind].
+    [|intros a0 _; reflexivity|reflexivity|apply opt_ok_always].
+  flat_c.
   rewrite foldM_app, (seg_m (m_command_step dfa) "size_bits_in" MInt
                          (fun x s => upd_command s NN NN NN NN NN NN x NN NN NN NN) in_u32);
     [|intros a0 Ha0; unfold m_command_step; keys; rewrite (as_u32_ok _ Ha0); reflexivity
-     |destruct (h_cfg h); reflexivity|assumption].
-  cbn [rbind].
+     |reflexivity|assumption].
+  flat_c.
   rewrite foldM_app, (seg_m (m_command_step dfa) "fields_in" (fields_to_m toml)
                          (fun x s => upd_command s NN NN NN NN NN NN NN NN NN
                                                  (option_map (map (spec_field_m dfa)) x) NN) fields_ok);
     [|intros a0 Ha0; unfold m_command_step; keys;
       rewrite (m_fields_ok toml dfa a0 (fields_ok_field_ok _ Ha0)); reflexivity
-     |destruct (h_cfg h); reflexivity|assumption].
-  cbn [rbind].
+     |reflexivity|assumption].
+  flat_c.
   rewrite foldM_app, (seg_m (m_command_step dfa) "size_bits_out" MInt
                          (fun x s => upd_command s NN NN NN NN NN NN NN x NN NN NN) in_u32);
     [|intros a0 Ha0; unfold m_command_step; keys; rewrite (as_u32_ok _ Ha0); reflexivity
-     |destruct (h_cfg h); reflexivity|assumption].
-  cbn [rbind].
+     |reflexivity|assumption].
+  flat_c.
   rewrite (seg_m (m_command_step dfa) "fields_out" (fields_to_m toml)
                  (fun x s => upd_command s NN NN NN NN NN NN NN NN NN NN
                                          (option_map (map (spec_field_m dfa)) x)) fields_ok);
     [|intros a0 Ha0; unfold m_command_step; keys;
       rewrite (m_fields_ok toml dfa a0 (fields_ok_field_ok _ Ha0)); reflexivity
-     |destruct (h_cfg h); reflexivity|assumption].
+     |reflexivity|assumption].
   unfold class_of. f_equal.
   destruct (h_cfg h), (ak_byte_order c), (ak_repeat c), (ak_fields_in c), (ak_fields_out c); reflexivity.
 Qed.
